@@ -14,6 +14,7 @@ def main():
     base = int(sys.argv[3]) if len(sys.argv) > 3 else 0
     prop = props.get(pid)
     seed = core.derive_seed(base, pid, prop.ENGINE, idx)
+    if os.environ.get('SEED'): seed = int(os.environ['SEED'])
     rng = random.Random(seed)
     cfg = prop.gen_config(rng, 'quick')
     print('CONFIG', json.dumps(cfg))
